@@ -580,6 +580,21 @@ def run(ctx, out):
         run_inner(ctx, out)
     finally:
         cleanup_private()
+    # whole-daemon family (framework owner): on the assembled daemon the bytes the simulated kernel accepted on every
+    # connection are the frames handed to the writer, whole and in order (monitors.mon_wire, applied to every scenario),
+    # under write budgets / would-block / errors on subscribers and callers and with requests that fill the read buffer
+    from vlib import dcheck, directed
+    comp = dict(out.coverage)
+    dcheck.run_property(ctx, out, "C10", None, n_quick=150, n_thorough=2500,
+                        gen_kw=dict(ws_share=0.4, batches=0.1, malformed=0.03, victims=2, faults=True, timers=True),
+                        directed=directed.full_buffer_request() + directed.faulty_caller() + directed.faulty_caller_batched())
+    for k in list(out.coverage):
+        if k not in comp or out.coverage[k] != comp[k]:
+            out.coverage["daemon_" + k] = out.coverage[k]
+            if k in comp:
+                out.coverage[k] = comp[k]
+            else:
+                del out.coverage[k]
 
 
 def run_inner(ctx, out):
